@@ -207,6 +207,17 @@ def install(E):
             return z3.BoolVal(x.tag == y.tag)
         return E.fresh('str_eq', 'bool')
 
+    @reg_re(E, r'^<&(mut )?.* as PartialEq(<.*>)?>::(eq|ne)$')
+    def _ref_eq(E, a, ctx):
+        # impl PartialEq<&B> for &A: compare the referents
+        m = re.match(r'^<&(?:mut )?(.*) as PartialEq(?:<.*>)?>::(eq|ne)$', ctx.callee)
+        inner = f'<{m.group(1)} as PartialEq>::eq'
+        t = E.resolve(inner)
+        if t is None:
+            raise Unsupported('no eq for ' + ctx.callee)
+        r = yield ('call', t, [E.load(a[0]), E.load(a[1])], inner)
+        return r if m.group(2) == 'eq' else z3.Not(r)
+
     @reg_re(E, r'^<.* as PartialEq(<.*>)?>::ne$')
     def _ne(E, a, ctx):
         # the provided method: !self.eq(other)
